@@ -4,7 +4,7 @@ C02, execution half — F2 with `break`/`continue`: generator-side facts.
 `compile_ls_Ff`: the loop ids in the code compiled from an F2 expression are the ones its compile
 allocated (what makes `BreakInstr`/`ContinueInstr` find the right `loopStart`).
 -/
-import ZygoVerif.Proofs.SimF2Ind
+import ZygoVerif.Proofs.SimF2Forms
 import ZygoVerif.Proofs.SimFb
 set_option linter.unusedSimpArgs false
 set_option linter.unusedVariables false
@@ -313,43 +313,6 @@ theorem compileArms_ls_Ff : ∀ (fnOk : Bool) (self : String) (arms : List (Expr
 end
 
 /-! ## The fragment with `break` and `continue` (top-level code) -/
-
-mutual
-/-- Fx ls: top-level statements that may `break`/`continue` one of the enclosing loops (`ls`: their
-labels, innermost first): `begin`, `cond` (tests in Ff), `let`/`letseq` (initialisers in Ff), `newScope`,
-`for` (initialiser, test, increment in Ff; the body in Fx with the loop's label added) — and everything
-of Ff. -/
-def Fx (ls : List (Option String)) (self : String) : Expr → Bool
-  | .break_ l => lblOk ls l
-  | .continue_ l => lblOk ls l
-  | .begin_ es => FxList ls self es
-  | .cond arms d => FxArms ls self arms && Fx ls self d
-  | .let_ seq bs body =>
-    (seq || decide ((bs.map (·.1)).Nodup)) && !body.isEmpty && FfBinds true self bs && FxList ls self body
-  | .newScope es => !es.isEmpty && FxList ls self es
-  | .for_ label init test incr body => Ff true self init && Ff true self test && Ff true self incr && FxList (label :: ls) self body
-  | .int v => Ff true self (.int v)
-  | .bool v => Ff true self (.bool v)
-  | .str v => Ff true self (.str v)
-  | .nilLit => Ff true self .nilLit
-  | .sym x => Ff true self (.sym x)
-  | .arr es => Ff true self (.arr es)
-  | .call f args => Ff true self (.call f args)
-  | .def_ x e => Ff true self (.def_ x e)
-  | .set_ x e => Ff true self (.set_ x e)
-  | .and_ es => Ff true self (.and_ es)
-  | .or_ es => Ff true self (.or_ es)
-  | .fn ps rest body => Ff true self (.fn ps rest body)
-  | .defn name ps rest body => Ff true self (.defn name ps rest body)
-  | .assign _ _ => false
-  | .bad _ => false
-def FxList (ls : List (Option String)) (self : String) : List Expr → Bool
-  | [] => true
-  | e :: es => Fx ls self e && FxList ls self es
-def FxArms (ls : List (Option String)) (self : String) : List (Expr × Expr) → Bool
-  | [] => true
-  | (p, b) :: r => Ff true self p && Fx ls self b && FxArms ls self r
-end
 
 /-- the compile-time loop facts survive a compile -/
 theorem GsOk.keep {Γ : List LCtx} {gs gs' : GS} (h : GsOk Γ gs) (hk : KeepFns gs gs') : GsOk Γ gs' :=
